@@ -755,6 +755,10 @@ static void run_force(int which)
             int n = cfg_n(&c), k = c.k;
             uint32_t full = n == 32 ? 0xffffffffu : ((1u << n) - 1);
             int ncases = MO.thorough ? (n <= 12 ? 1500 : 300) : (n <= 12 ? 160 : 40);
+            /* a second instance of the same code created with another checksum type: fragments are validated by what
+             * THEY record (checksum type CRC32), whichever instance reads them */
+            int desc2 = -1;
+            if (mon_case_all("%s|create-reader-instance", x.ck)) { cfg_t c2 = c; c2.ct = (ci & 1) ? CHKSUM_NONE : CHKSUM_MD5; desc2 = lec_create(&c2); if (desc2 <= 0) mon_viol("C20", "create-failed", "reader instance rc=%d", desc2); mon_end(); }
             for (int e = 0; e < ncases; e++) {
                 rng_t r; rng_seed(&r, MO.seed, mon_hash_str(x.ck, (uint64_t)e));
                 /* survivors S: classes = all present, all data present (fast path), exactly-k-ish, random within/beyond */
@@ -789,7 +793,7 @@ static void run_force(int which)
                 uint32_t valid = S & ~Bm;
                 /* decoys: an extra, damaged copy of an index whose good copy is also in the list, placed before or
                  * after it (the valid set does not change: the good copy passes validation, the decoy must not count) */
-                int ndecoy = 0; char dk[64] = "";
+                int ndecoy = 0; char dk[96] = "";
                 if (e % 3 == 1 && cnt > 0 && cnt < PRES_MAX - 4) {
                     int want = 1 + (int)rng_below(&r, 2);
                     for (int q = 0; q < want; q++) {
@@ -813,12 +817,14 @@ static void run_force(int which)
                 }
                 int within = must_succeed(&x, valid);
                 char *out = NULL; uint64_t outlen = 0;
-                int rc = liberasurecode_decode(x.desc, pr.ptr, cnt, s->flen, 1, &out, &outlen);
+                int other_reader = desc2 > 0 && e % 4 == 3;
+                if (other_reader) { mon_count("cases_read_through_instance_with_other_checksum_type", 1); strncat(dk, dk[0] ? "+other-ct-reader" : "other-ct-reader", sizeof dk - strlen(dk) - 1); }
+                int rc = liberasurecode_decode(other_reader ? desc2 : x.desc, pr.ptr, cnt, s->flen, 1, &out, &outlen);
                 mon_count("evaluations", 1);
                 if (rc == 0) {
                     int exact = outlen == s->len && (s->len == 0 || !memcmp(out, s->data, s->len));
                     if (!exact) mon_viol("C20", "forced-decode-wrong-bytes", "decode(force=1) returned 0 with bytes/length different from the original (damaged=%s kinds=%s valid=0x%x decoys=%s)", bm, kd, valid, dk);
-                    liberasurecode_decode_cleanup(x.desc, out);
+                    liberasurecode_decode_cleanup(other_reader ? desc2 : x.desc, out);
                     mon_count(within ? "force_ok_within" : "force_ok_beyond_exact", 1);
                 } else if (rc > 0) mon_viol("C20", "forced-decode-positive-rc", "rc=%d", rc);
                 else {
@@ -831,6 +837,7 @@ static void run_force(int which)
                 mon_end();
             }
             mon_count0("configs", 1);
+            if (desc2 > 0 && mon_case_all("%s|destroy-reader-instance", x.ck)) { liberasurecode_instance_destroy(desc2); mon_end(); }
         }
         ctx_close(&x);
     }
